@@ -28,9 +28,12 @@ WORKERS = 1
 RULE = ('three lock-step case kinds. single: histories over Req/OpenPool/Start/ClosePool/OpenDone/Fault/Resume on the real '
         'SingletonPoolSink with a mock provider (exhaustive over a 13-label alphabet to depth 3 (quick) / 4 (thorough) and over its 9 core labels to depth 4 / 5, '
         'scenario templates with k = 1..6 concurrent first requests resumed in every rotation/reversal, seeded random '
-        'histories of 4..40 labels incl. create failures, faults of old sinks, resumes of unknown/blocked tasks); '
+        'histories of 4..40 labels incl. create failures, faults of old sinks, resumes of unknown/blocked tasks, connections '
+        'that report Busy, and every history over 8 labels to depth 3 / 4 after a connection became Busy); '
         'ref: every Open/Close sequence up to length 9 (quick) / 12 (thorough) and every Open/Close/Fault sequence (underlying sink '
-        'reports Closed while holders are alive) up to length 7 / 9 on the real RefCountedSink plus random '
+        'reports Closed while holders are alive) up to length 7 / 9, every Open/Close sequence up to length 7 / 9 issued in 5 '
+        'groupings of concurrent callers against an underlying sink whose Open/Close yield before and after their work '
+        '(events also compared in chronological order), on the real RefCountedSink plus random '
         'histories with 3 holders, requests and groups of calls issued concurrently against an underlying sink whose '
         'Open/Close yield; shared: random Create/DropHolder histories over 3 keys and falsy keys on the real '
         'SharedSinkProvider with explicit holder references and gc.collect(), with the underlying sink of a held key faulting / being closed / '
@@ -209,6 +212,12 @@ def _make_mocks():
         self.on_faulted.Set(Exception('fault'))
       return True
 
+    def set_busy(self, b):
+      if b and self.st == CS.Open:
+        self.st = CS.Busy
+      elif not b and self.st == CS.Busy:
+        self.st = CS.Open
+
     def complete_open(self, ok):
       if self.st != CS.Idle or self.res is None or self.res.done:
         return False
@@ -251,6 +260,8 @@ def _make_mocks():
       return self.st
 
     def Open(self):
+      for _ in range(self.w.slow[0]):      # a slow open / close: the work happens after some yields, the call returns after another
+        _S['gevent'].sleep(0)
       if self.track:
         self.st = CS.Open
       n = self.w.nopen
@@ -263,6 +274,8 @@ def _make_mocks():
       return r
 
     def Close(self):
+      for _ in range(self.w.slow[1]):
+        _S['gevent'].sleep(0)
       if self.track:
         self.st = CS.Closed
       self.w.ev(['uclose'])
@@ -289,6 +302,7 @@ class World(object):
     self.fail_create = False
     self.nopen = 0
     self.yielding = False
+    self.slow = (0, 0)      # yields before the work of the underlying Open / Close (when yielding)
     self.capture = False
     self.captured = []
     self.spawned = {}
@@ -355,7 +369,7 @@ def run_single(case):
         w.ev(['openres', t, bool(opens[t].successful())])
         del opens[t]
     steps.append({'ev': w.take(), 'pstate': int(pool.state), 'resumed': resumed,
-                  'sinks': ''.join({CS.Idle: 'I', CS.Open: 'O', CS.Closed: 'C'}.get(s.st, '?') for s in w.sinks)})
+                  'sinks': ''.join({CS.Idle: 'I', CS.Open: 'O', CS.Busy: 'B', CS.Closed: 'C'}.get(s.st, '?') for s in w.sinks)})
 
   def start(t, fail):
     gr = w.spawned.pop(t, None)
@@ -420,6 +434,12 @@ def run_single(case):
           w.sinks[n].kill(True)
         settle()
         labels.append(['fault', n])
+      elif k == 'busy':
+        n = _sel(op[1], list(range(len(w.sinks))))
+        if 0 <= n < len(w.sinks):
+          w.sinks[n].set_busy(bool(op[2]))
+        settle()
+        labels.append(['busy', n, bool(op[2])])
       elif k == 'resume':
         order = [x for x in w.wait_order if x in w.waiting]
         t = _sel(op[1], list(reversed(order)))      # ['rel', 0] = the task that has waited longest
@@ -448,18 +468,20 @@ def run_ref(case):
   g = _S['gevent']
   w = World()
   w.yielding = bool(case.get('yield'))
+  if isinstance(case.get('yield'), list):
+    w.slow = (int(case['yield'][0]), int(case['yield'][1]))
   under = _S['RecSink'](w)
   under.track = True       # the mock reports Open after Open(), Closed after Close() or a fault
   rc = _S['RefCountedSink'](under)
   term = _S['Terminal'](w)
   ops = case['ops']
   per_op = [[] for _ in ops]
-  order = []            # global order of the events, as op indices
+  chrono = [[]]         # per group: the events in the order they happened, with the op they belong to
 
   def ev(e):
     k = w.task_of.get(g.getcurrent(), w.cur_task)
     per_op[k].append(e)
-    order.append(k)
+    chrono[-1].append([k, e])
   w.ev = ev
 
   def do(k):
@@ -492,7 +514,7 @@ def run_ref(case):
     idx = list(range(i, min(i + sz, len(ops))))
     i += sz
     if not idx:
-      continue
+      break
     if len(idx) == 1 and not w.yielding:
       w.task_of[main] = idx[0]
       do(idx[0])
@@ -503,8 +525,10 @@ def run_ref(case):
         if x.exception is not None:
           per_op[k].append(['exc', type(x.exception).__name__])
         w.task_of.pop(x, None)
+    chrono.append([])
   w.task_of.clear()
-  return {'ops_ev': per_op, 'order': order, 'sizes': sizes}
+  sizes = [z for z in sizes if z > 0]
+  return {'ops_ev': per_op, 'chrono': chrono[:len(sizes)], 'sizes': sizes}
 
 
 _KEYS = {0: None, -1: '', -2: 0, 1: 'a', 2: 'b', 3: ('h', 9092)}
@@ -608,6 +632,8 @@ LAST = ['rel', 0]
 CORE = [['req', False], ['open_defer'], ['start', ['rel', 0], False], ['close'], ['opendone', LAST, True], ['opendone', LAST, False],
         ['fault', LAST], ['resume', ['rel', 0]], ['resume', ['rel', -1]]]
 ALPHA = CORE + [['open', False], ['req', True], ['fault', ['rel', 1]], ['start', ['rel', -1], True]]
+BUSY = [['req', False], ['opendone', LAST, True], ['resume', ['rel', 0]], ['busy', LAST, True], ['busy', LAST, False], ['fault', LAST], ['close'],
+        ['open', False]]
 
 
 def _rand_single(r):
@@ -636,6 +662,8 @@ def _rand_single(r):
       ops.append(['start', r.choice([['rel', 0], ['rel', 0], ['rel', -1], r.randrange(0, 12)]), r.random() < 0.1])
     elif y < 0.46:
       ops.append(['close'])
+    elif y < 0.5:
+      ops.append(['busy', r.choice([LAST, LAST, ['rel', 1], r.randrange(0, 6)]), r.random() < 0.65])
     elif y < 0.62:
       ops.append(['opendone', r.choice([LAST, LAST, LAST, ['rel', 1], r.randrange(0, 6)]), r.random() < 0.75])
     elif y < 0.72:
@@ -685,6 +713,9 @@ def _templates():
   return out
 
 
+SLOW = [[0, 0], [1, 1], [0, 1], [0, 2], [1, 0], [2, 0], [0, 3]]
+
+
 def _rand_ref(r):
   n = r.choice([3, 6, 10, 16, 30])
   ops = []
@@ -701,7 +732,7 @@ def _rand_ref(r):
       ops.append(['rclose', r.randrange(0, 3)])
   c = {'kind': 'ref', 'ops': ops}
   if r.random() < 0.6:
-    c['yield'] = True
+    c['yield'] = r.choice(SLOW)
     sizes = []
     left = n
     while left > 0:
@@ -754,6 +785,11 @@ def gen_cases(tier, seed):
       out.append({'kind': 'single', 'ops': [ALPHA[i] for i in combo]})
   for combo in itertools.product(range(len(CORE)), repeat=4 if quick else 5):
     out.append({'kind': 'single', 'ops': [CORE[i] for i in combo]})
+  # a healthy connection that reports Busy for a while: every history over 8 labels after it was opened
+  for d in range(1, (3 if quick else 4) + 1):
+    for combo in itertools.product(range(len(BUSY)), repeat=d):
+      if any(BUSY[i][0] == 'busy' for i in combo):
+        out.append({'kind': 'single', 'ops': [['req', False], ['opendone', 0, True], ['resume', 0]] + [BUSY[i] for i in combo]})
   # RefCountedSink: every Open/Close sequence (the holder does not matter to the code; it matters to the monitor)
   for d in range(1, (9 if quick else 12) + 1):
     for j, combo in enumerate(itertools.product((0, 1), repeat=d)):
@@ -763,6 +799,17 @@ def gen_cases(tier, seed):
     for j, combo in enumerate(itertools.product((0, 1, 2), repeat=d)):
       if 2 in combo:
         out.append({'kind': 'ref', 'ops': [[['ropen', (j + i) % 3], ['rclose', (j + i) % 3], ['renv', 4, 'fault']][b] for i, b in enumerate(combo)]})
+  # ... and issued concurrently in groups against an underlying sink whose Open and Close are slow (yield before and
+  # after doing their work): e.g. a new holder's Open arriving while the last holder's Close is still in progress
+  for d in range(2, (7 if quick else 9) + 1):
+    for j, combo in enumerate(itertools.product((0, 1), repeat=d)):
+      ops = [['ropen' if b == 0 else 'rclose', (j + i) % 3] for i, b in enumerate(combo)]
+      for gi, sizes in enumerate(([d], [2] * ((d + 1) // 2), [1, d - 1], [d - 1, 1], [1] + [2] * (d // 2))):
+        out.append({'kind': 'ref', 'ops': ops, 'yield': SLOW[(j + gi) % len(SLOW)], 'groups': sizes})
+      if d <= 4:
+        for sl in SLOW:
+          out.append({'kind': 'ref', 'ops': ops, 'yield': sl, 'groups': [1] + [2] * (d // 2)})
+          out.append({'kind': 'ref', 'ops': ops, 'yield': sl, 'groups': [d]})
   n = 1000 if quick else 12000
   for i in range(n):
     r = C.case_rng(seed, PID, i)
@@ -837,7 +884,7 @@ def _mon_single(case, obs):
                     (i, me, prev, len(creates))))
         elif creates[0][1] != len(prev):
           v.append(('no-replacement', 'step %d: the sink created is not fresh' % i))
-      if len(live_before) == 1 and prev[live_before[0]] == 'O':
+      if len(live_before) == 1 and prev[live_before[0]] in 'OB':
         if [e for e in fwds if e[1] == me and e[2] == live_before[0]] == []:
           v.append(('not-shared', 'step %d: request %d not forwarded to the open connection %d (events %s)' % (i, me, live_before[0], evs)))
     if lab[0] == 'resume' and stp.get('resumed') and lab[1] in is_req and live_after:
@@ -852,6 +899,7 @@ def _mon_ref(case, obs):
   n = 0                 # holders according to the history (a close when nobody holds is surplus)
   opens = closes = 0
   last_open = None
+  holders_after = []
   for i, (op, evs) in enumerate(zip(case['ops'], obs['ops_ev'])):
     uo = [e for e in evs if e[0] == 'uopen']
     uc = [e for e in evs if e[0] == 'uclose']
@@ -896,6 +944,23 @@ def _mon_ref(case, obs):
       v.append(('open-close-unbalanced', 'op %d: %d underlying opens, %d closes' % (i, opens, closes)))
     if (n > 0) != (opens == closes + 1):
       v.append(('open-close-unbalanced', 'op %d: %d holder(s) but %d underlying opens, %d closes' % (i, n, opens, closes)))
+    holders_after.append(n)
+  # in the order things really happened: whenever all calls issued so far have returned, the underlying sink is
+  # open exactly if somebody holds it (a late underlying Close must not land after a new holder's Open)
+  is_open = False
+  done = 0
+  for gi, (sz, evs) in enumerate(zip(obs['sizes'], obs['chrono'])):
+    for k, e in evs:
+      if e[0] == 'uopen':
+        is_open = True
+      elif e[0] == 'uclose':
+        is_open = False
+    done = min(done + sz, len(holders_after))
+    if done and holders_after[done - 1] > 0 and not is_open:
+      v.append(('closed-while-held', 'after ops %d..%d (issued concurrently): %d holder(s) but the last underlying call was Close: %s' %
+                (done - sz, done - 1, holders_after[done - 1], evs)))
+    if done and holders_after[done - 1] == 0 and is_open:
+      v.append(('last-close-not-forwarded', 'after ops %d..%d: nobody holds the sink but the underlying sink is open: %s' % (done - sz, done - 1, evs)))
   return v
 
 
@@ -959,6 +1024,8 @@ def _single_label(l):
     return 'OpenDone %s %s' % (_nat(l[1]), C.blit(l[2]))
   if k == 'fault':
     return 'Fault %s' % _nat(l[1])
+  if k == 'busy':
+    return 'SetBusy %s %s' % (_nat(l[1]), C.blit(l[2]))
   if k == 'resume':
     return 'Resume %s' % _nat(l[1])
   raise ValueError(k)
@@ -1005,7 +1072,11 @@ def to_coq(case, obs):
       if e[0] == 'ufwd':
         return 'UForward %s' % C.zlit(e[1])
       raise ValueError('event outside the model: %r' % (e,))
-    return 'CRef %s %s' % (C.lst([lab(o) for o in case['ops']]), C.lst([C.lst([ev(e) for e in evs]) for evs in obs['ops_ev']]))
+    per_op = C.lst([C.lst([ev(e) for e in evs]) for evs in obs['ops_ev']])
+    if case.get('yield') and any(z > 1 for z in obs['sizes']):
+      chrono = C.lst([C.lst([ev(e) for k_, e in evs if e[0] != 'ufwd']) for evs in obs['chrono']])
+      return 'CRefG %s %s %s %s' % (C.lst([lab(o) for o in case['ops']]), per_op, C.natlist(obs['sizes']), chrono)
+    return 'CRef %s %s' % (C.lst([lab(o) for o in case['ops']]), per_op)
   if k == 'shared':
     refs = []
     labels = []
@@ -1048,7 +1119,8 @@ def stats(cases, obs):
   br = dict.fromkeys(['get_none_create', 'get_closed_replace', 'get_idle_wait', 'get_share_forward', 'create_raises',
                       'open_counted_only', 'open_spawns_greenlet', 'start_share_result', 'start_unknown_or_started', 'resume_forward_live', 'resume_forward_closed_or_opening', 'resume_crash_none',
                       'resume_open_result', 'resume_blocked_or_unknown', 'close_underlying', 'close_counted_only',
-                      'fault_propagated', 'fault_unsubscribed_or_noop', 'opendone_ok', 'opendone_noop'], 0)
+                      'fault_propagated', 'fault_unsubscribed_or_noop', 'opendone_ok', 'opendone_noop', 'busy_toggled', 'busy_noop',
+                      'get_share_forward_busy'], 0)
   maxwait = 0
   ref = dict.fromkeys(['open_first', 'open_shared', 'close_last', 'close_not_last', 'close_surplus', 'request', 'env_closed_while_held', 'env_other', 'last_close_after_fault',
                        'concurrent_groups', 'yielding_cases'], 0)
@@ -1088,7 +1160,7 @@ def stats(cases, obs):
             w -= 1
           if 'fwd' in names:
             tgt = s['ev'][names.index('fwd')][2]
-            br['resume_forward_live' if s['sinks'][tgt] == 'O' else 'resume_forward_closed_or_opening'] += 1
+            br['resume_forward_live' if s['sinks'][tgt] in 'OB' else 'resume_forward_closed_or_opening'] += 1
           elif 'crash' in names:
             br['resume_crash_none'] += 1
           elif 'openres' in names:
@@ -1101,6 +1173,10 @@ def stats(cases, obs):
           br['fault_propagated' if 'poolfault' in names else 'fault_unsubscribed_or_noop'] += 1
         elif lab[0] == 'opendone':
           br['opendone_ok' if s['sinks'] != prev else 'opendone_noop'] += 1
+        elif lab[0] == 'busy':
+          br['busy_toggled' if s['sinks'] != prev else 'busy_noop'] += 1
+        if lab[0] == 'req' and 'fwd' in names and 'B' in prev:
+          br['get_share_forward_busy'] += 1
         maxwait = max(maxwait, w)
         ppstate = s['pstate']
         prev = s['sinks']
